@@ -86,17 +86,17 @@ type c01Version struct {
 }
 
 type c01World struct {
-	t      *testing.T
-	ctx    context.Context
-	ks     *nutsCrypto.Crypto
+	t       *testing.T
+	ctx     context.Context
+	ks      *nutsCrypto.Crypto
 	backend spi.Storage
-	keys   map[string]crypto.PublicKey // key name -> public key
-	order  []string
-	hist   map[string][]c01Version
-	docs   map[string]*did.Document
-	asOf   int64 // ms; used for requests without ResolveTime
-	ldm    jsonld.JSONLD
-	loader ld.DocumentLoader
+	keys    map[string]crypto.PublicKey // key name -> public key
+	order   []string
+	hist    map[string][]c01Version
+	docs    map[string]*did.Document
+	asOf    int64 // ms; used for requests without ResolveTime
+	ldm     jsonld.JSONLD
+	loader  ld.DocumentLoader
 }
 
 // newKey creates a DETERMINISTIC P-256 key for the given key id (so that documents in replay files verify in a later run),
@@ -173,7 +173,9 @@ func (w *c01World) Resolve(id did.DID, md *resolver.ResolveMetadata) (*did.Docum
 
 type c01Publisher struct{ revs []credential.Revocation }
 
-func (p *c01Publisher) PublishCredential(context.Context, vc.VerifiableCredential, bool) error { return nil }
+func (p *c01Publisher) PublishCredential(context.Context, vc.VerifiableCredential, bool) error {
+	return nil
+}
 func (p *c01Publisher) PublishRevocation(_ context.Context, r credential.Revocation) error {
 	p.revs = append(p.revs, r)
 	return nil
@@ -1428,6 +1430,9 @@ func (n *c01Nodes) generate(o *c01Out, rnd *rand.Rand, thorough bool) {
 	for _, b := range bases {
 		n.mutate(o, rnd, b, okAt, thorough)
 	}
+	// 2a. presentations that mix a PROOF-LESS SELF-ATTESTED credential (issuer = holder = signer; exempt from the signature
+	// check) with other credentials, in every order; the other credentials genuine, tampered, unsigned or signed by the wrong key
+	n.mixedPresentations(o, rnd, creds, issuedAt, okAt, thorough)
 	// 2b. random multi-point mutations (seeded): two or three single mutations stacked
 	nMulti, nTimes := 160, 120
 	if thorough {
@@ -1481,7 +1486,9 @@ func (n *c01Nodes) issueScenario(o *c01Out, rnd *rand.Rand) {
 		{"undefined-nested", with(base["human"], func(t *vc.VerifiableCredential) { subj(t)["human"].(map[string]any)["zz"] = 1.0 }), at},
 		{"case-variant-claim", with(base["org"], func(t *vc.VerifiableCredential) { subj(t)["ID"] = didO }), at},
 		{"three-types", with(base["human"], func(t *vc.VerifiableCredential) { t.Type = append(t.Type, u("NutsOrganizationCredential")) }), at},
-		{"two-types-no-vc", with(base["org"], func(t *vc.VerifiableCredential) { t.Type = []ssi.URI{u("NutsOrganizationCredential"), u("HumanCredential")} }), at},
+		{"two-types-no-vc", with(base["org"], func(t *vc.VerifiableCredential) {
+			t.Type = []ssi.URI{u("NutsOrganizationCredential"), u("HumanCredential")}
+		}), at},
 		{"no-types", with(base["plain"], func(t *vc.VerifiableCredential) { t.Type = nil }), at},
 		{"issuer-unknown", with(base["plain"], func(t *vc.VerifiableCredential) { t.Issuer = u(didU) }), at},
 		{"issuer-not-a-did", with(base["plain"], func(t *vc.VerifiableCredential) { t.Issuer = u("https://example.com/issuer") }), at},
@@ -1675,27 +1682,27 @@ func statusScenario(t *testing.T, o *c01Out, rnd *rand.Rand, mode string, mutate
 }
 
 var c01ExtraAddsVC = map[string][]any{
-	"/|expirationDate":   {"2020-01-01T00:00:00Z", "2090-01-01T00:00:00Z"},
-	"/|credentialStatus": {map[string]any{"id": "https://example.com/s#1", "type": "StatusList2021Entry", "statusPurpose": "revocation", "statusListIndex": "1", "statusListCredential": "https://example.com/s"}},
-	"/|evidence":         {map[string]any{"id": "https://example.com/evidence/1", "type": []any{"DocumentVerification"}}},
-	"/|termsOfUse":       {map[string]any{"type": "IssuerPolicy", "id": "https://example.com/policy"}},
-	"/|holder":           {didO},
-	"/|name":             {"a name"},
-	"/proof|expires":     {"2020-01-01T00:00:00Z", "2090-01-01T00:00:00Z"},
-	"/proof|domain":      {"evil.example.com"},
-	"/proof|challenge":   {"c"},
-	"/proof|nonce":       {"n"},
-	"/proof|proofValue":  {"zz"},
+	"/|expirationDate":        {"2020-01-01T00:00:00Z", "2090-01-01T00:00:00Z"},
+	"/|credentialStatus":      {map[string]any{"id": "https://example.com/s#1", "type": "StatusList2021Entry", "statusPurpose": "revocation", "statusListIndex": "1", "statusListCredential": "https://example.com/s"}},
+	"/|evidence":              {map[string]any{"id": "https://example.com/evidence/1", "type": []any{"DocumentVerification"}}},
+	"/|termsOfUse":            {map[string]any{"type": "IssuerPolicy", "id": "https://example.com/policy"}},
+	"/|holder":                {didO},
+	"/|name":                  {"a name"},
+	"/proof|expires":          {"2020-01-01T00:00:00Z", "2090-01-01T00:00:00Z"},
+	"/proof|domain":           {"evil.example.com"},
+	"/proof|challenge":        {"c"},
+	"/proof|nonce":            {"n"},
+	"/proof|proofValue":       {"zz"},
 	"/credentialSubject|name": {"injected"},
 }
 
 var c01ExtraAddsJWT = map[string][]any{
-	"/|exp": {float64(c01T0 - 100), float64(c01T0 + 100000)},
-	"/|iat": {float64(c01T0 + 100000)},
-	"/|aud": {"evil"},
-	"/|iss": {didO},
+	"/|exp":                {float64(c01T0 - 100), float64(c01T0 + 100000)},
+	"/|iat":                {float64(c01T0 + 100000)},
+	"/|aud":                {"evil"},
+	"/|iss":                {didO},
 	"/vc|credentialStatus": c01ExtraAddsVC["/|credentialStatus"],
-	"/vp|holder": {didO},
+	"/vp|holder":           {didO},
 }
 
 func (n *c01Nodes) mutate(o *c01Out, rnd *rand.Rand, b c01Base, at int64, thorough bool) {
@@ -1749,6 +1756,97 @@ func (n *c01Nodes) mutate(o *c01Out, rnd *rand.Rand, b c01Base, at int64, thorou
 	call(c01Mut{kind: "alg-hs256", path: "hdr:/alg"}, jwtJoin(hs, pl, sig))
 	call(c01Mut{kind: "ws-suffix", path: "text"}, b.text+" ")
 	n.resignJWT(o, b, hdr, pl, at)
+}
+
+// mixedPresentations: the holder (real wallet, real key) signs presentations whose credential list mixes proof-less
+// self-attested credentials with third-party credentials.  The exemption from the signature check is PER CREDENTIAL: a forged
+// third-party credential must be rejected wherever it stands in the list.
+func (n *c01Nodes) mixedPresentations(o *c01Out, rnd *rand.Rand, creds map[string]string, issuedAt, okAt int64, thorough bool) {
+	self := func(i int) string {
+		return mustJSON(map[string]any{"@context": []any{ctxVC}, "id": didH + "#self-" + strconv.Itoa(i), "type": []any{"VerifiableCredential"},
+			"issuer": didH, "issuanceDate": time.Unix(issuedAt, 0).UTC().Format(time.RFC3339), "credentialSubject": map[string]any{"id": didH}})
+	}
+	tamperLD := func(text string, f func(m map[string]any)) string {
+		var m map[string]any
+		_ = json.Unmarshal([]byte(text), &m)
+		f(m)
+		return mustJSON(m)
+	}
+	orgLD, orgJWT, humanLD := creds["org:ldp_vc"], creds["org:jwt_vc"], creds["human:ldp_vc"]
+	hdr, pl, sig, _ := jwtParts(orgJWT)
+	forgedJWT := func() string {
+		p2 := deepCopy(map[string]any(pl)).(map[string]any)
+		p2["vc"].(map[string]any)["credentialSubject"].([]any)[0].(map[string]any)["organization"].(map[string]any)["name"] = "Forged Hospital"
+		return jwtJoin(hdr, p2, sig)
+	}()
+	var docNoProof map[string]any
+	_ = json.Unmarshal([]byte(orgLD), &docNoProof)
+	delete(docNoProof, "proof")
+	wrongKey, err := proof.NewLDProof(proof.ProofOptions{Created: time.Unix(issuedAt, 0).UTC()}).Sign(n.w.ctx, deepCopy(docNoProof).(map[string]any),
+		signature.JSONWebSignature2020{ContextLoader: n.w.loader, Signer: n.w.ks}, didO+"#k1")
+	if err != nil {
+		n.w.t.Fatal(err)
+	}
+	others := []struct {
+		name, text string
+		genuine    bool
+	}{
+		{"org-ld", orgLD, true}, {"org-jwt", orgJWT, true}, {"human-ld", humanLD, true},
+		{"FORGED-tampered-ld", tamperLD(orgLD, func(m map[string]any) {
+			m["credentialSubject"].(map[string]any)["organization"].(map[string]any)["name"] = "Forged Hospital"
+		}), false},
+		{"FORGED-unsigned-ld", mustJSON(docNoProof), false},
+		{"FORGED-wrong-key-ld", mustJSON(wrongKey), false},
+		{"FORGED-garbage-jws-ld", tamperLD(orgLD, func(m map[string]any) { m["proof"].(map[string]any)["jws"] = "eyJhbGciOiJFUzI1NiJ9..AAAA" }), false},
+		{"FORGED-tampered-jwt", forgedJWT, false},
+	}
+	hd := didH
+	exp := issuedAt + 600
+	n.setTrust(o, "NutsOrganizationCredential", didI, true)
+	emit := func(names []string, texts []string, genuine bool, format string) {
+		text := n.present(texts, format, didH, &hd, issuedAt+20, &exp, false)
+		label := "vpmix-" + strings.TrimSuffix(strings.TrimPrefix(format, ""), "") + "[" + strings.Join(names, ",") + "]"
+		mut := ""
+		if !genuine {
+			mut = "vp-mix-forged"
+		}
+		n.run(o, c01Call{kind: "vp", text: text, at: &okAt, allowUntrusted: false, checkSig: true, label: label, base: label, mut: mut, path: strings.Join(names, ",")})
+	}
+	formats := []string{holder.JSONLDPresentationFormat, holder.JWTPresentationFormat}
+	for _, f := range formats {
+		emit([]string{"self"}, []string{self(0)}, true, f)
+		emit([]string{"self", "self"}, []string{self(0), self(1)}, true, f)
+		for _, x := range others {
+			emit([]string{"self", x.name}, []string{self(0), x.text}, x.genuine, f)
+			emit([]string{x.name, "self"}, []string{x.text, self(0)}, x.genuine, f)
+			if !x.genuine {
+				emit([]string{x.name}, []string{x.text}, false, f)
+				emit([]string{"org-ld", "self", x.name}, []string{orgLD, self(0), x.text}, false, f)
+				emit([]string{"self", "human-ld", x.name}, []string{self(0), humanLD, x.text}, false, f)
+				emit([]string{"self", x.name, "self"}, []string{self(0), x.text, self(1)}, false, f)
+			}
+		}
+	}
+	// random longer lists
+	nRand := 24
+	if thorough {
+		nRand = 400
+	}
+	for i := 0; i < nRand; i++ {
+		k := 2 + rnd.Intn(3)
+		var names, texts []string
+		genuine := true
+		for j := 0; j < k; j++ {
+			if rnd.Intn(3) == 0 {
+				names, texts = append(names, "self"), append(texts, self(j))
+			} else {
+				x := others[rnd.Intn(len(others))]
+				names, texts = append(names, x.name), append(texts, x.text)
+				genuine = genuine && x.genuine
+			}
+		}
+		emit(names, texts, genuine, formats[rnd.Intn(2)])
+	}
 }
 
 // multiMutate stacks 2-3 random single-point mutations
